@@ -1,4 +1,6 @@
-import BppProofs.Lemmas.DiscretizeLookup
+import BppProofs.Lemmas.DiscretizeHistory
+import BppProofs.Lemmas.DiscretizeFamilies
+import BppProofs.Lemmas.DiscretizeWitness
 /-!
 # C09 — a discretised distribution is a valid partition of its continuous parent
 (src/Bpp/Numeric/Prob/AbstractDiscreteDistribution.{h,cpp} and the families built on it)
@@ -29,12 +31,6 @@ forms: `exponential_H`, `truncated_exponential_H`, `uniform_H` and the unconditi
 -/
 namespace Bpp.C09
 open Bpp Bpp.Discretize
-
-/-- the state about to be discretised -/
-structure Pre (s : DD ℝ) : Prop where
-  n_pos : 1 ≤ s.n
-  prec_nonneg : 0 ≤ s.prec
-  dom_ordered : s.dom.lo ≤ s.dom.hi
 
 /-! ## equal-probability scheme -/
 
@@ -150,7 +146,192 @@ theorem equal_interval_valid (par : Parent ℝ) (s : DD ℝ) (hs : Pre s)
     nClassesOk (eqInt par s) = true ∧ probsNonneg (eqInt par s) = true ∧ probsSumOne 0 (eqInt par s) = true ∧
     boundsMonoInDom (eqInt par s) = true ∧ valuesStrictMono (eqInt par s) = true ∧ valuesInClass (eqInt par s) = true ∧
     (∀ pm ∈ (eqInt par s).probs.zip (pairs (eqInt par s).allBounds),
-        pm.1 * (par.P s.dom.hi - par.P s.dom.lo) = par.P pm.2.2 - par.P pm.2.1) :=
-  eqInt_valid par s hs.n_pos hs.prec_nonneg hw hmono hcond
+        pm.1 * (par.P s.dom.hi - par.P s.dom.lo) = par.P pm.2.2 - par.P pm.2.1) := by
+  obtain ⟨a, b, c, d, e, f, g, _⟩ := eqInt_valid par s hs.n_pos hs.prec_nonneg hw hmono hcond
+  exact ⟨a, b, c, d, e, f, g⟩
+
+
+/-! ## median-valued classes -/
+
+/-- **value_in_own_class**, median-valued classes — `_partial`: proved only when the medians are
+*not* rescaled (`¬ Rescaled`: their sum is zero or has not the sign of the mean).  The full clause
+(“each class value lies in its own class interval”, whatever the factor) is false of the code:
+`median_rescaled_outside_class_witness`.  Missing: a bound on the rescaling factor
+`mean / (mean of the medians)` in terms of the class widths. -/
+theorem value_in_own_class_median_partial (par : Parent ℝ) (s s' : DD ℝ) (hs : Pre s)
+    (H : ParentOK par s.dom.lo s.dom.hi) (hne : par.P s.dom.hi ≠ par.P s.dom.lo) (hmed : s.median = true)
+    (hresc : ¬ Rescaled (medians par s.n s.dom.lo s.dom.hi (par.P s.dom.lo) ((par.P s.dom.hi - par.P s.dom.lo) / (s.n : ℝ)))
+      (par.E s.dom.hi - par.E s.dom.lo))
+    (hr : resolved par s = true) (h : eqProp par s = .ok s') : valuesInClass s' = true :=
+  eqProp_median_in_class par s s' hs.n_pos hs.prec_nonneg hs.dom_ordered H hne hmed hresc hr h
+
+/-- under `H` the class medians (before rescaling) lie in their own classes and are strictly
+increasing -/
+theorem medians_in_own_class (par : Parent ℝ) (s : DD ℝ) (hs : Pre s) (H : ParentOK par s.dom.lo s.dom.hi)
+    (hne : par.P s.dom.hi ≠ par.P s.dom.lo) :
+    let ec := (par.P s.dom.hi - par.P s.dom.lo) / (s.n : ℝ)
+    let F : ℕ → ℝ := fun i => par.Q (par.P s.dom.lo + (i : ℝ) * ec)
+    let G : ℕ → ℝ := fun i => par.Q (par.P s.dom.lo + ((i : ℝ) + 1 / 2) * ec)
+    s.dom.lo :: (eqPropRaw par s).1 ++ [s.dom.hi] = (List.range' 0 (s.n + 1)).map F ∧
+    medians par s.n s.dom.lo s.dom.hi (par.P s.dom.lo) ec = (List.range' 0 s.n).map G ∧
+    (∀ i, i < s.n → F i ≤ G i ∧ G i ≤ F (i + 1)) ∧ (∀ i j, i < j → j < s.n → G i < G j) :=
+  medians_in_class par s hs.n_pos hs.dom_ordered H hne
+
+/-- the full clause fails for rescaled medians: on the piecewise-linear parent `plParent` (exact
+rationals, precision resolved) the three class values are `1/3, 1, 5/3` while class 1 is
+`[10/27, 20/27]`. -/
+theorem median_rescaled_outside_class_witness :
+    resolved Witness.plParent (Witness.plState true 1) = true ∧
+    (match eqProp Witness.plParent (Witness.plState true 1) with
+     | .ok s => s.cats == [1/3, 1, 5/3] && s.bounds == [10/27, 20/27] && !(valuesInClass s)
+     | .error _ => false) = true := by
+  constructor <;> decide +kernel
+
+/-- **mean_preserved**, median-valued classes: when the medians are rescaled the discrete mean is
+the parent's mean over the domain, for every parent -/
+theorem mean_preserved_median (par : Parent ℝ) (s s' : DD ℝ) (hs : Pre s)
+    (hne : par.P s.dom.hi ≠ par.P s.dom.lo) (hmed : s.median = true)
+    (hresc : Rescaled (medians par s.n s.dom.lo s.dom.hi (par.P s.dom.lo) ((par.P s.dom.hi - par.P s.dom.lo) / (s.n : ℝ)))
+      (par.E s.dom.hi - par.E s.dom.lo))
+    (hr : resolved par s = true) (h : eqProp par s = .ok s') :
+    discreteMean s' = (par.E s.dom.hi - par.E s.dom.lo) / (par.P s.dom.hi - par.P s.dom.lo) :=
+  eqProp_mean_median par s s' hs.n_pos hs.prec_nonneg hne hmed hresc hr h
+
+/-! ## scheme dispatch -/
+
+/-- `discretize()` with any of the three schemes yields a valid partition (`Valid`: n classes,
+non-negative probabilities summing to one, non-decreasing bounds inside the domain, strictly
+increasing class values in comparator order) and leaves class count, domain, precision, median
+flag and scheme as they were.  `IntOK` (classes wider than the precision, mass on the domain) is
+asked only when the scheme is not EQUAL_PROB. -/
+theorem discretize_partition (par : Parent ℝ) (s s' : DD ℝ) (hs : Pre s) (H : ParentOK par s.dom.lo s.dom.hi)
+    (hi : IntOK par s) (h : discretize par s = .ok s') : Valid s' ∧ SameCfg s s' :=
+  discretize_valid par s s' hs H hi h
+
+/-! ## look-ups -/
+
+/-- **lookup_spec**: for every value of the domain `getCategoryIndex` answers with a class `k`
+whose interval contains the value (`bounds[k-1] ≤ x < bounds[k]`, the first and last class
+extending to the ends of the domain), and `getValueCategory` answers with the value of that class. -/
+theorem lookup_spec (s : DD ℝ) (x : ℝ) (hx : s.dom.isCorrect x = true) (hn : nClassesOk s = true) :
+    ∃ k v, getCategoryIndex s x = .ok k ∧ lookupOk s x k = true ∧ k < s.n ∧
+      s.cats[k]? = some v ∧ getValueCategory s x = .ok v := by
+  simp only [nClassesOk, Bool.and_eq_true, beq_iff_eq] at hn
+  obtain ⟨k, hk, hok, hle⟩ := getCategoryIndex_spec s x hx
+  obtain ⟨k', v, hk', hv, hval⟩ := getValueCategory_spec s x hx (by omega)
+  rw [hk] at hk'; injection hk' with hk'; subst hk'
+  exact ⟨k, v, hk, hok, by omega, hv, hval⟩
+
+/-- with non-decreasing bounds the class containing a value is unique: the look-up returns *the*
+class whose interval contains the value -/
+theorem lookup_unique (s : DD ℝ) (x : ℝ) (hx : s.dom.isCorrect x = true) (hb : boundsMonoInDom s = true) (k : Nat)
+    (hk : lookupOk s x k = true) : getCategoryIndex s x = .ok k := by
+  have hch : s.bounds.IsChain (· ≤ ·) := by
+    have := (nondecr_iff _).1 hb
+    unfold DD.allBounds at this
+    have h2 := (List.isChain_cons.1 this).1 |> fun _ => this.tail
+    exact (List.isChain_append.1 h2).1
+  have := inClass_unique x s.bounds hch k hk
+  simp [getCategoryIndex, hx, this]
+
+/-- outside the domain both look-ups raise -/
+theorem lookup_outside (s : DD ℝ) (x : ℝ) (hx : s.dom.isCorrect x = false) :
+    getCategoryIndex s x = .error .bpp ∧ getValueCategory s x = .error .bpp := by
+  simp [getCategoryIndex, getValueCategory, hx]
+
+/-- the look-ups as found skipped `bounds_[0]`: in 4 classes with bounds 1, 2, 3 the value 3/2
+(class 1) was mapped to class 0 and its value -/
+theorem lookup_legacy_witness :
+    Legacy.getValueCategory Witness.fourClasses (3/2) = .ok (1/2) ∧
+    getValueCategory Witness.fourClasses (3/2) = .ok (3/2) ∧
+    lookupOk Witness.fourClasses (3/2) 0 = false ∧ lookupOk Witness.fourClasses (3/2) 1 = true := by
+  refine ⟨?_, ?_, ?_, ?_⟩ <;> decide +kernel
+
+/-- `getCategoryIndex` as found answered the 1-based position of the bound and threw an integer
+for the last class -/
+theorem lookup_legacy_throws :
+    Legacy.getCategoryIndex Witness.fourClasses (1/2) = .ok (some 1) ∧
+    Legacy.getCategoryIndex Witness.fourClasses (7/2) = .ok none ∧
+    getCategoryIndex Witness.fourClasses (1/2) = .ok 0 ∧ getCategoryIndex Witness.fourClasses (7/2) = .ok 3 := by
+  refine ⟨?_, ?_, ?_, ?_⟩ <;> decide +kernel
+
+/-! ## cumulative class queries -/
+
+/-- **cumulative_consistent**: at the value of class `i` the four queries are the partial sums
+of the class probabilities, `Pr(x<c) + Pr(x≥c) = 1`, `Pr(x≤c) + Pr(x>c) = 1`, and, the
+probabilities summing to one, `Pr(x≤c) = Pr(x<c) + pᵢ`. -/
+theorem cumulative_consistent (s : DD ℝ) (hv : Valid s) (hp : 0 ≤ s.prec) (i : Nat) (c p : ℝ)
+    (hc : s.cats[i]? = some c) (hpi : s.probs[i]? = some p) :
+    cInf s c = (s.probs.take i).sum ∧ cSup s c = (s.probs.drop (i + 1)).sum ∧
+    cInf s c + cSSup s c = 1 ∧ cIInf s c + cSup s c = 1 ∧ cIInf s c = cInf s c + p := by
+  obtain ⟨h1, h2, h3, h4⟩ := cumulative_at_class s hp hv.sorted i c hc
+  have hsum : s.probs.sum = 1 := by
+    have := hv.probs_sum_one
+    simp only [probsSumOne, ScalarReal.leb_iff, sumL_eq, ScalarReal.abs_eq, ScalarReal.one_eq, ScalarReal.zero_eq] at this
+    have := abs_nonpos_iff.1 this; linarith
+  have hsplit := sum_take_add_drop s.probs i
+  have hdrop : (s.probs.drop i).sum = p + (s.probs.drop (i + 1)).sum := by
+    have hlt : i < s.probs.length := by
+      by_contra hh; rw [List.getElem?_eq_none (by omega)] at hpi; simp at hpi
+    rw [List.drop_eq_getElem_cons hlt, List.sum_cons]
+    rw [List.getElem?_eq_getElem hlt] at hpi; injection hpi with hpi; rw [hpi]
+  refine ⟨h1, h3, by rw [h1, h2]; ring, by rw [h4, h3]; ring, ?_⟩
+  rw [h4, h1]; linarith
+
+/-! ## restriction -/
+
+/-- **restrict_domain**: `restrictToConstraint` never reaches the branch the model excludes;
+it refuses (`Exception`, state unchanged) exactly the constraints whose intersection with the
+domain is empty; otherwise the new domain accepts exactly the values accepted by both the old
+domain and the constraint (C01's intersection lemma), is ordered, and lies inside the old one. -/
+theorem restrict_domain (d : Dom ℝ) (c : Interval ℝ) :
+    restrictDom d c ≠ .error .unreachable ∧
+    (restrictDom d c = .error .bpp ↔ (d.toInterval.interAssign c).isEmpty = true) ∧
+    ∀ d' ch, restrictDom d c = .ok (d', ch) →
+      d'.lo ≤ d'.hi ∧ d.lo ≤ d'.lo ∧ d'.hi ≤ d.hi ∧
+      (∀ v, d'.isCorrect v = true ↔ (d.isCorrect v = true ∧ c.isCorrect v = true)) := by
+  have hspec := restrictDom_spec d c
+  refine ⟨hspec.1, ?_, ?_⟩
+  · constructor
+    · intro h
+      by_contra hne
+      unfold restrictDom at h
+      simp only [hne, Bool.false_eq_true, if_false] at h
+      split at h <;> simp at h
+    · intro h; simp [restrictDom, h]
+  · intro d' ch h
+    obtain ⟨_, a, b, c', e, _⟩ := hspec.2 d' ch h
+    exact ⟨a, b, c', e⟩
+
+/-! ## histories -/
+
+/-- **rediscretize_inv**: for every history of class-count changes, median toggles,
+restrictions, accepted parameter updates (a new parent satisfying `H`, possibly a new ordered
+domain) and re-discretisations — of any length — every reached state is a valid partition whose
+parent satisfies `H` on its domain.  Induction over the operation list; a refused restriction
+leaves the state unchanged; narrowing the domain keeps `H` (`ParentOK.restrict`). -/
+theorem rediscretize_inv (st st' : MSt) (ops : List Op) (hg : Good st) (ha : AllAdm st ops)
+    (h : run st ops = .ok st') : Good st' :=
+  run_good st st' ops hg ha h
+
+/-- for the EQUAL_PROB scheme admissibility only asks for positive class counts and for `H` of the
+parents brought by updates -/
+theorem adm_equal_prob (st : MSt) (op : Op) (hsch : st.2.scheme = 1)
+    (h : match op with
+      | .setN n => 1 ≤ n
+      | .update par dom => dom.lo ≤ dom.hi ∧ ParentOK par dom.lo dom.hi
+      | _ => True) : Adm st op := by
+  refine ⟨h, ?_⟩
+  intro p s0 ht hne
+  exfalso; apply hne
+  cases op with
+  | setN n => simp only [target] at ht; injection ht with ht; split at ht <;> simp at ht; rw [← ht.2]; exact hsch
+  | setMedian b => simp only [target] at ht; injection ht with ht; split at ht <;> simp at ht; rw [← ht.2]; exact hsch
+  | restrict c =>
+    simp only [target] at ht
+    split at ht <;> simp at ht
+    rw [← ht.2]; exact hsch
+  | update par dom => simp only [target] at ht; simp at ht; rw [← ht.2]; exact hsch
+  | rediscretize => simp only [target] at ht; simp at ht; subst ht; exact hsch
 
 end Bpp.C09
